@@ -43,6 +43,7 @@ let () = iter_lines (fun line ->
         | 8 -> WReplaceSelf (nexts ())
         | 9 -> WBeforeSelf (nexts ())
         | 10 -> WAfterSelf (nexts ())
+        | 11 -> let lo = next () in let hi = next () in WSlice (opt lo, opt hi, nexts ())
         | _ -> failwith "wopcode" in
       (match z_wc_step !st t w with
        | Ok st' -> st := st'; Buffer.add_string out ("ok | " ^ show_state !st ^ " ; ")
